@@ -11,7 +11,11 @@
 mod alloc;
 mod c01;
 mod c11;
+mod c08;
 mod c16;
+mod c18;
+mod c19b;
+mod recdesc;
 mod sim;
 mod simdemo;
 mod simop;
@@ -45,6 +49,15 @@ pub fn exec_line(line: &str) -> Option<String> {
     }
     if matches!(op, "rec-life" | "suppress" | "suppress-msg" | "cache-seq") {
         return c11::exec(op, &mut t);
+    }
+    if matches!(op, "rec-compare" | "tiebreak" | "probe-time" | "name-change" | "hostname-change" | "check-name" | "split-sub" | "escaped-labels") {
+        return c08::exec(op, &mut t);
+    }
+    if matches!(op, "if-match" | "select" | "resolve-addr" | "select-at" | "valid-ip" | "addrs-on-intf") {
+        return c18::exec(op, &mut t);
+    }
+    if op == "backoff" {
+        return c19b::exec(op, &mut t);
     }
     None
 }
@@ -84,9 +97,15 @@ fn main() {
                     "C10" => c11::generate_c10(&mut rng, &tier, &mut emit),
                     "C11" => c11::generate_c11(&mut rng, &tier, &mut emit),
                     "C16" => c16::generate(&mut rng, &tier, &mut emit),
-                    "C19" => c19::generate(&mut rng, &tier, &mut emit),
+                    "C19" => {
+                        c19b::generate(&mut rng, &tier, &mut emit);
+                        c19::generate(&mut rng, &tier, &mut emit);
+                    }
                     "C13" => c13::generate(&mut rng, &tier, &mut emit),
                     "C12" => c12::generate(&mut rng, &tier, &mut emit),
+                    "C08" => c08::generate(&mut rng, &tier, &mut emit),
+                    "C16" => c16::generate(&mut rng, &tier, &mut emit),
+                    "C18" => c18::generate(&mut rng, &tier, &mut emit),
                     _ => {
                         eprintln!("unknown property {}", prop);
                         std::process::exit(2);
